@@ -350,6 +350,7 @@ def run(tier, seed):
                        "deep": "%s on a deep structure: %s" % (what, aspect)}[c["kind"]]
             chk.fail("%s|%s" % (prof, c["id"]), aspect, "%s [%s build]: %s: %s" % (c["id"], prof, aspect, detail[:160]), {"id": c["id"], "tier": tier, "profile": prof}, cluster=cluster)
     chk.coverage = {"evaluations": total, "cases": len(cs), "profiles": profiles, "paths": len(PATHS) + len(ASYNC_PATHS), "sized_natives": len(SIZED), "sizes": [s[0] for s in SIZES], "deep_structures": len(DEEP),
+                    "samples": [{"id": c["id"], "src": str(c.get("src", ""))[:400]} for c in (cs[len(cs) // 3], cs[len(cs) // 2], cs[-1])],
                     "distinct_nontrivial": sum(len(v) for v in good_paths.values()), "paths_fully_under_host_control": sorted(p for p, v in good_paths.items() if len(v) == 4), "paths_not_reaching_the_callee_on_tsrun": sorted(skipped_uncal), "table": table,
                     "rule": "every (re-entry path x body) pair of the table: body in {infinite loop, unbounded recursion through the same path, finite recursion of depth %d, depth 50 (calibration)}; host = step counter + call_depth() limit 1000, exactly the CLI's --timeout/--max-depth; a step may execute at most 10^6 VM instructions (hook counter); every (native x size) pair and every (native x deep structure x depth) pair under RLIMIT_AS 2 GiB and an 8 MiB stack, each case attributed to its own worker death/hang" % (3_000 if tier == "quick" else 30_000)}
     chk.assumptions = ["a path whose callee is not invoked at all on tsrun (hook unsupported) is not judged here", "bounded work = at most 10^6 VM instructions inside one step(); native work that executes no VM instruction is bounded by the hang limit only",
